@@ -16,6 +16,11 @@ CLAIMED = {
             "Seeded search over (seed image x 0-4 stored-image faults x source fault plan x clock jump) with the reader run under strict/default/tolerant/skip_errors on fresh threads in worker processes; oracles: no panic (overflow checks on), no process death (stack overflow, abort), bounded I/O steps, bounded CPU time, bounded single and live allocations. Every violation is re-executed in a fresh child process and minimised (mutation list, then byte ranges) before it is reported.",
             "Thresholds standing for 'unbounded' are 120 s CPU, 1 GiB single allocation, 2 GiB live heap, 2e6 + 200 x length I/O calls. Images are small (<= 400 KiB). 'lenient' is an alias of 'tolerant' in the library.",
             "DESIGN.md §4 C01, §2"),
+    "C03": ("exploration",
+            "deterministic simulation: generated authoring programs written through a fault-injecting sink under every writer configuration; independent structural reader + strict parser as oracles",
+            "Seeded search over (authoring program with delimiter-laden names and text x writer configuration x optional encryption x sink fault plan). The image left on the simulated disk is checked by refpdf, an independent structural reader (exact xref offsets, /Size, stream /Length, reference resolution, strict token grammar, object-stream slots), and by the library's strict parser with every page walked. Through a failing sink the writer must return Err or leave a complete valid file; through a merely shortening sink it must succeed with identical bytes.",
+            "refpdf is independent of the library's parser but written for this harness (no third-party validator is installed). Encrypted output is validated structurally only.",
+            "DESIGN.md §4 C03, §2.2"),
     "C04": ("exploration",
             "deterministic simulation: seeded append-only revision histories from a synthetic writer, read back through a fault-injecting byte source after every revision and compared with a reference map",
             "Seeded search over histories of 1-6 revisions (redefine / free / re-add; xref table or stream per revision; objects plain or in object streams), every prefix opened through SimSource (fault-free and short reads at every offset) under all four presets and compared object by object with a reference map known by construction; a recovery variant damages the stored xref data so the header scan is used.",
